@@ -507,6 +507,11 @@ class OpsMixin:
                     return z3.Exists([i], z3.And(i >= 0, i < r.length, z3.Select(r.arr, i) == self.term_of(x, r.elem)))
         if isinstance(cont, VNone):
             raise E.PyExc(VExc("TypeError"), "in None")
+        if isinstance(cont, VAny) and self.opt("opaque_any_methods"):
+            isd = z3.Function("isinstance_dict", AnySort, z3.BoolSort())(cont.t)
+            if not self.run.decide(z3.Or(isd, z3.Function("is_container", AnySort, z3.BoolSort())(cont.t)), "opaque is a container"):
+                raise E.PyExc(VExc("TypeError"), "argument of opaque type is not iterable")
+            return z3.Function("any_contains", AnySort, AnySort, z3.BoolSort())(cont.t, self.inject(x))
         raise E.Unsupported(f"contains {cont!r}")
 
     # ------------------------------------------------------------ subscripts / slices
@@ -588,6 +593,8 @@ class OpsMixin:
             t = E.simp(v.t)
             if z3.is_string_value(t):
                 return [VStr(c) for c in t.as_string()]
+        if isinstance(v, VClass) and v.info is not None and v.info.is_enum:
+            return [self.enum_member(v.name, m) for m, _ in v.info.enum_members]
         raise E.Unsupported(f"iteration over symbolic {v!r}")
 
     def comp_iter(self, gens, frame, body):
@@ -605,6 +612,26 @@ class OpsMixin:
 
     def e_ListComp(self, node, frame):
         sym = self.try_symbolic_comp(node, frame)
+        if sym is not None and isinstance(node, ast.ListComp) and isinstance(sym.src, VRef) and sym.src.kind == "list":
+            # materialised comprehension over a symbolic list: a filter keeps a sub-sequence (length <= source),
+            # a map keeps the length; the elements themselves are abstracted (fresh)
+            run = self.run
+            r = run.rec(sym.src.oid)
+            g = node.generators[0]
+            is_filter = isinstance(node.elt, ast.Name) and isinstance(g.target, ast.Name) and node.elt.id == g.target.id
+            nm = run.fresh_name(f"{r.sym}#comp")
+            n = z3.Int(nm + "#len")
+            run.inputs[nm + "#len"] = n
+            if g.ifs:
+                run.assume(z3.And(n >= 0, n <= r.length))
+            else:
+                run.assume(n == r.length)
+            if "comprehension over a symbolic list abstracted (length relation only)" not in run.abstractions:
+                run.abstractions.append("comprehension over a symbolic list abstracted (length relation only)")
+            nr = ListRec(None, n, r.elem if is_filter else ("any",), None, sym=nm)
+            if nr.elem[0] in ("int", "real", "bool", "str", "enum", "any", "datetime", "timedelta"):
+                nr.arr = z3.Array(nm + "#arr", z3.IntSort(), self.sort_of(nr.elem))
+            return VRef(run.alloc(nr), "list")
         if sym is not None:
             return sym
         out = []
